@@ -129,7 +129,7 @@ fn c09<A: Api>(args: &[Val]) -> Val {
     if !A::accepts(p) {
         return not_utf8();
     }
-    c("c09", vec![A::parent(p), A::ancestors(p), A::hist(p, &[c("pop", vec![])])])
+    c("c09", vec![A::parent(p), A::ancestors(p), A::hist(p, &[c("pop", vec![])]), A::parent_variants(p)])
 }
 
 fn c10<A: Api>(args: &[Val]) -> Val {
